@@ -301,3 +301,14 @@ def geod_selfcheck(ctx, n_ode=4, n_mp=1):
     except AssertionError as e:
         raise core.Inconclusive('geod_exact failed its self-validation: %r' % (e,))
     ctx.info['oracle_selfcheck'] = {k: float('%.3g' % v) for k, v in res.items()}
+
+
+def alias_ell(rnd, ell):
+    """another Earth-like ellipsoid for the same line (1/f kept inside 280..320 for generated ones)"""
+    r = rnd.random()
+    a, invf = tmwork.ell_published(ell)
+    if r < 0.4:
+        return tmwork.SAME_INVF[ell] if isinstance(ell, str) else [min(6.4e6, max(6.3e6, a + rnd.choice([-1, 1]) * 2500.0)), invf]
+    if r < 0.6:
+        return [a, min(320.0, max(280.0, invf + rnd.choice([-1, 1]) * rnd.choice([0.5, 3.0, 15.0])))]
+    return rnd.choice([e for e in ('grs80', 'wgs84', 'ans', 'intl24') if e != ell])
